@@ -169,10 +169,10 @@ class SLCDriver(CIPDriver):
             UINT.encode(next(self._sequence)),  # transaction identifier
             SLC_FNC_READ,  # function code
             USINT.encode(PCCC_DATA_SIZE[_tag["file_type"]] * _tag["element_count"]),  # byte size
-            USINT.encode(int(_tag["file_number"])),
+            _address_field(_tag["file_number"]),
             PCCC_DATA_TYPE[_tag["file_type"]],
-            USINT.encode(int(_tag["element_number"])),
-            USINT.encode(int(_tag.get("pos_number", 0))),  # sub-element number
+            _address_field(_tag["element_number"]),
+            _address_field(_tag.get("pos_number", 0)),  # sub-element number
         ]
 
         request = SendUnitDataRequestPacket(self._sequence)
@@ -233,10 +233,10 @@ class SLCDriver(CIPDriver):
             UINT.encode(next(self._sequence)),
             SLC_FNC_WRITE,
             USINT.encode(_tag["data_size"] * _tag["element_count"]),
-            USINT.encode(int(_tag["file_number"])),
+            _address_field(_tag["file_number"]),
             PCCC_DATA_TYPE[_tag["file_type"]],
-            USINT.encode(int(_tag["element_number"])),
-            USINT.encode(int(_tag.get("pos_number", 0))),
+            _address_field(_tag["element_number"]),
+            _address_field(_tag.get("pos_number", 0)),
             writeable_value(_tag, value),
         ]
         request = SendUnitDataRequestPacket(self._sequence)
@@ -728,6 +728,14 @@ def parse_tag(tag: str) -> Optional[dict]:
         }
 
     return None
+
+
+def _address_field(value: int) -> bytes:
+    """PCCC address fields are one byte, values of 255 and above are sent as 0xFF followed by a 2-byte value"""
+    value = int(value)
+    if value < 255:
+        return USINT.encode(value)
+    return b"\xff" + UINT.encode(value)
 
 
 def get_bit(value: int, idx: int) -> bool:
